@@ -5,12 +5,23 @@
 package main
 
 import (
+	"context"
 	"fmt"
+	"io"
+	"net"
 	"os"
 	"strconv"
 	"strings"
+	"time"
 	"unicode/utf8"
 
+	"github.com/robinbraemer/event"
+	"go.minekube.com/common/minecraft/component"
+	"go.minekube.com/gate/pkg/edition/java/netmc"
+	"go.minekube.com/gate/pkg/edition/java/proto/state"
+	"go.minekube.com/gate/pkg/edition/java/proto/version"
+	"go.minekube.com/gate/pkg/gate/proto"
+	"go.minekube.com/gate/pkg/edition/java/auth"
 	"go.minekube.com/gate/pkg/edition/java/config"
 	"go.minekube.com/gate/pkg/edition/java/proxy"
 	"go.minekube.com/gate/pkg/util/netutil"
@@ -223,6 +234,7 @@ type srv struct {
 	rs   proxy.RegisteredServer // object of the latest registration (kept after Unregister)
 	info proxy.ServerInfo
 	reg  bool
+	port int // one address per server slot
 }
 
 func optName(s *srv) string {
@@ -232,12 +244,20 @@ func optName(s *srv) string {
 	return lib.Some(pk(s.name))
 }
 
+// one authenticator for all proxies of a run (auth.New generates an RSA key; irrelevant to C17)
+var sharedAuth auth.Authenticator
+
 func main() {
+	var aerr error
+	if sharedAuth, aerr = auth.New(auth.Options{}); aerr != nil {
+		fmt.Fprintln(os.Stderr, "auth.New:", aerr)
+		os.Exit(2)
+	}
 	f := lib.ParseFlags()
 	rng := lib.NewRng(f.Seed)
 	out := lib.NewOut("C17", f)
 	out.Imports = "From Verif Require Import Model.TryList.\n"
-	out.Rule = "one case = one player: 3-8 servers (valid names, distinct up to case), try list of 0-5 names, 0-3 forced hosts with lower-cased keys (as the loader leaves them; 1/12 of the configs keep a mixed-case key), a virtual host built from a forced key or a random host (ASCII, or Latin-1/Greek/Cyrillic/CJK, case mangled) plus port / Forge / TCPShield suffixes, trailing dots, brackets, misplaced separators, invalid UTF-8, nil; a history of 1-9 operations (nextServerToTry with the previous result or another server as failed server, setConnectedServer, promote in-flight, setInFlightConnection) with servers unregistered/re-registered in between; 1/10 of the cases re-register a server under a case variant of its name (outside the loaded-configuration premise, correspondence only). distinct = distinct Coq terms; non-trivial = the history contains a nextServerToTry that had to skip at least one listed entry (excluded or unregistered) or that found nothing"
+	out.Rule = "one case = one player: 3-8 servers (valid names, distinct up to case), try list of 0-5 names, 0-3 forced hosts with lower-cased keys (as the loader leaves them; 1/12 of the configs keep a mixed-case key), a virtual host built from a forced key or a random host (ASCII, or Latin-1/Greek/Cyrillic/CJK, case mangled) plus port / Forge / TCPShield suffixes, trailing dots, brackets, misplaced separators, invalid UTF-8, nil; a history of 1-9 operations (nextServerToTry with the previous result or another server as failed server, setConnectedServer, promote in-flight, setInFlightConnection) with servers unregistered/re-registered in between; half of the cases end with handleConnectionErr2 on a real client connection (in-memory pipe, PLAY state) whose KickedFromServerEvent is captured by a subscriber (initial result, reason identity), 1/8 of them unsafe; 1/10 of the cases re-register a server under a case variant of its name (outside the loaded-configuration premise, correspondence only). distinct = distinct Coq terms; non-trivial = the history contains a nextServerToTry that had to skip at least one listed entry (excluded or unregistered) or that found nothing"
 
 	n := f.Count(1000)
 	for ci := 0; ci < n; ci++ {
@@ -318,7 +338,18 @@ func genCase(r *lib.Rng, out *lib.Out, ci int) {
 	cfg.Try = try
 	cfg.ForcedHosts = forced
 	cfg.Lite.Enabled = false
-	px, err := proxy.New(proxy.Options{Config: &cfg})
+	// the final handleConnectionErr2 needs an active client connection and an event subscriber
+	withKick := r.Chance(1, 2)
+	mgr := event.New()
+	var kickEvents []*proxy.KickedFromServerEvent
+	var kickInitial []proxy.ServerKickResult
+	event.Subscribe(mgr, 0, func(e *proxy.KickedFromServerEvent) {
+		kickEvents = append(kickEvents, e)
+		kickInitial = append(kickInitial, e.Result())
+		// stop here: no redirect is attempted, the player is disconnected
+		e.SetResult(&proxy.DisconnectPlayerKickResult{Reason: &component.Text{Content: "harness"}})
+	})
+	px, err := proxy.New(proxy.Options{Config: &cfg, Authenticator: sharedAuth, EventMgr: mgr})
 	if err != nil {
 		fmt.Fprintln(os.Stderr, "proxy.New:", err)
 		os.Exit(2)
@@ -334,15 +365,16 @@ func genCase(r *lib.Rng, out *lib.Out, ci int) {
 	}
 	caseVariant := r.Chance(1, 10)
 	for i, s := range pool {
+		s.port = 30000 + i
 		if r.Chance(3, 4) {
 			nm := s.name
 			if caseVariant && r.Chance(1, 2) {
 				nm = mangleCase(r, nm)
 			}
-			register(s, nm, 30000+i)
+			register(s, nm, s.port)
 		} else {
 			// give it an object anyway so that it can appear as a stale failed / connected server
-			register(s, s.name, 30000+i)
+			register(s, s.name, s.port)
 			px.Unregister(s.info)
 			s.reg = false
 		}
@@ -361,7 +393,17 @@ func genCase(r *lib.Rng, out *lib.Out, ci int) {
 	if vh.isNil {
 		addr = nil
 	}
-	pl := proxy.VerifC17NewPlayer(px, nil, addr)
+	var conn netmc.MinecraftConn
+	if withKick {
+		// a real client connection over an in-memory pipe, in PLAY state; the peer discards what is written
+		a, b := net.Pipe()
+		go io.Copy(io.Discard, b)
+		defer b.Close()
+		conn, _ = netmc.NewMinecraftConn(context.Background(), a, proto.ServerBound, 0, time.Second, -1, nil)
+		conn.SetProtocol(version.Minecraft_1_20_2.Protocol)
+		conn.SetState(state.Play)
+	}
+	pl := proxy.VerifC17NewPlayer(px, conn, addr)
 	vhObs := pl.VirtualHostname()
 
 	// history
@@ -391,7 +433,7 @@ func genCase(r *lib.Rng, out *lib.Out, ci int) {
 					nm = mangleCase(r, nm)
 				}
 				old := s.rs
-				register(s, nm, 30000+r.Intn(1000))
+				register(s, nm, s.port) // one address per server slot: RegisteredServerEqual then follows the name
 				if last == s && old != s.rs {
 					last = nil
 				}
@@ -470,6 +512,71 @@ func genCase(r *lib.Rng, out *lib.Out, ci int) {
 		}
 	}
 
+	// final kick
+	kickT := "None"
+	var kickDesc any
+	if withKick {
+		var rsS *srv
+		conName, _ := pl.State()
+		switch {
+		case last != nil && r.Chance(1, 2):
+			rsS = last
+		case conName != "" && r.Chance(2, 3):
+			for _, s := range pool {
+				if s.name == conName {
+					rsS = s
+				}
+			}
+		}
+		if rsS == nil {
+			rsS = pool[r.Intn(len(pool))]
+		}
+		safe := !r.Chance(1, 8)
+		friendly := &component.Text{Content: "friendly reason"}
+		reg := regList()
+		before, _ := pl.Cursor()
+		pl.ConnErr2(rsS.rs, nil, friendly, safe)
+		after, _ := pl.Cursor()
+		conAfter, inflAfter := pl.State()
+		res, reasonOK, resDesc := "KUnsafe", true, "unsafe-disconnect"
+		switch {
+		case len(kickInitial) > 1:
+			out.GoViolation(map[string]any{"index": ci, "what": "handleConnectionErr2 fired more than one KickedFromServerEvent"})
+		case len(kickInitial) == 1:
+			switch t := kickInitial[0].(type) {
+			case *proxy.DisconnectPlayerKickResult:
+				res, reasonOK, resDesc = "KDisconnect", t.Reason == component.Component(friendly), "disconnect"
+				nontrivial = true
+			case *proxy.RedirectPlayerKickResult:
+				res, resDesc = lib.App("KRedirect", pk(t.Server.ServerInfo().Name())), "redirect "+t.Server.ServerInfo().Name()
+				if after > before {
+					nontrivial = true
+				}
+			case *proxy.NotifyKickResult:
+				res, reasonOK, resDesc = "KNotify", t.Message == component.Component(friendly), "notify"
+			default:
+				res, resDesc = "KUnsafe", "unknown result type"
+				reasonOK = false
+			}
+		}
+		if !netmc.Closed(conn) {
+			// every path ends in a disconnect here (the subscriber replaces the result)
+			reasonOK = false
+			resDesc += " (connection still open)"
+		}
+		on := func(s string) string {
+			if s == "" {
+				return "None"
+			}
+			return lib.Some(pk(s))
+		}
+		kickT = lib.Some(lib.Pair(
+			lib.App("Check.C17.mkKick", reg, pk(rsS.name), lib.Bool(safe)),
+			lib.App("Check.C17.mkKObs", res, lib.Bool(reasonOK), lib.Nat(after), on(conAfter), on(inflAfter))))
+		kickDesc = map[string]any{"kicked_from": rsS.name, "safe": safe, "result": resDesc, "reason_is_friendly": reasonOK, "tryIndex": after}
+		trace = append(trace, fmt.Sprintf("handleConnectionErr2(%s, safe=%v) -> %s", rsS.name, safe, resDesc))
+	}
+
 	// Coq term
 	var fl []string
 	for _, k := range forcedKeys {
@@ -480,7 +587,7 @@ func genCase(r *lib.Rng, out *lib.Out, ci int) {
 	if vh.hint >= 0 {
 		hint = lib.Some(lib.Nat(vh.hint))
 	}
-	term := lib.App("Check.C17.mk", cfgT, pk(vh.s), pk(vhObs), hint, lib.List(ops), lib.List(obs))
+	term := lib.App("Check.C17.mk", cfgT, pk(vh.s), pk(vhObs), hint, lib.List(ops), lib.List(obs), kickT)
 	tags := []string{"vhost=" + vh.kind, fmt.Sprintf("ops=%d", nops)}
 	if caseVariant {
 		tags = append(tags, "registry=case-variant")
@@ -490,6 +597,9 @@ func genCase(r *lib.Rng, out *lib.Out, ci int) {
 	if mixedKey {
 		tags = append(tags, "forced-keys=mixed-case")
 	}
+	if withKick {
+		tags = append(tags, "kick=yes")
+	}
 	if _, ok := forced[vhObs]; ok {
 		tags = append(tags, "forced-host-hit")
 	} else {
@@ -497,6 +607,6 @@ func genCase(r *lib.Rng, out *lib.Out, ci int) {
 	}
 	out.Add(term, map[string]any{
 		"forced": forced, "try": try, "vhost": fmt.Sprintf("%q", vh.s), "vhost_kind": vh.kind,
-		"hostname_observed": fmt.Sprintf("%q", vhObs), "history": trace,
+		"hostname_observed": fmt.Sprintf("%q", vhObs), "history": trace, "kick": kickDesc,
 	}, nontrivial, tags...)
 }
